@@ -104,7 +104,11 @@ package main
 //@   trusted lazily decodes and memoises the entry for a path; as a function of (l, path) it is a lookup
 
 //@ func (seedFlag).String
-//@   inline
+//@   property C12 C06 C13
+//@   assigns nothing
+//@   deterministic @function-of-the-seed: in f.bytes
+//@   ensures @the-whole-seed-is-handed-on: r0 == base64.RawStdEncoding.EncodeToString(f.bytes)
+//@ end
 
 //@ func typeutil_hash
 //@   pure
@@ -149,13 +153,26 @@ package main
 //@   deterministic @unseeded-name-from-action-id: when len(flagSeed.bytes) == 0 in flagSeed.bytes, pkg.GarbleActionID, name
 //@ end
 
+//@ ghost lastGarbleSum string
+//@ ghost garbleSumTaken bool
+
+//@ hookset structsalt
+//@ hook before mvdan.cc/garble.addGarbleToHash(in)
+//@   assert("garble-inputs-are-added-to-the-struct-shape-hash", str(in) == strconv.FormatUint(uint64(typeutil_hash(strct)), 32))
+//@ hook after mvdan.cc/garble.addGarbleToHash(in) (out)
+//@   lastGarbleSum = str(out[:])
+//@   garbleSumTaken = true
+//@ end
+
 //@ func hashWithStruct
 //@   property C12 C15 C16
 //@   spec chars.smt2 hashstate.smt2 garbleflags.smt2
-//@   hooks hasher
+//@   hooks hasher structsalt
+//@   ensures @seeded-salt-is-the-struct-shape: len(flagSeed.bytes) > 0 ==> wr[hasher] == spec.HWriteS(spec.HWriteS(spec.HWriteS(spec.HEmpty(), strconv.FormatUint(uint64(typeutil_hash(strct)), 32)), old(str(flagSeed.bytes))), field.Name())
+//@   ensures @unseeded-salt-carries-the-garble-inputs: len(flagSeed.bytes) == 0 ==> wr[hasher] == spec.HWriteS(spec.HWriteS(spec.HWriteS(spec.HEmpty(), lastGarbleSum), old(str(flagSeed.bytes))), field.Name())
 //@   requires field.Name() != "" && sharedCache != nil && len(sharedCache.BinaryContentID) > 0
 //@   fact @init-nameBase64: spec.IsURLNoPad(nameBase64)
-//@   assigns sumBuffer, b64NameBuffer, ghost wr
+//@   assigns sumBuffer, b64NameBuffer, ghost wr, ghost lastGarbleSum, ghost garbleSumTaken
 //@   ensures @length: 6 <= len(r0) && len(r0) <= 12
 //@   ensures @alphabet: forall i int :: 0 <= i && i < len(r0) ==> spec.IdentChar(r0[i])
 //@   ensures @first-not-digit: !spec.IsDigit(r0[0])
@@ -279,6 +296,9 @@ package main
 //@ ghost envShared string
 //@ ghost parent map[string]string
 //@ ghost wroteOutsideOwned bool
+//@ ghost tempMade bool
+//@ ghost tempDir string
+//@ ghost removed map[string]bool
 
 //@ hookset fs
 //@ hook after os.MkdirTemp(dir, pattern) (name, err)
@@ -298,6 +318,10 @@ package main
 //@   if k == "GARBLE_SHARED" { assume(v == envShared) }
 //@ hook before os.RemoveAll(p)
 //@   assert("removes-only-what-this-process-owns", p == "" || may[p] || marker[filepath.Join(p, ".garble-debugdir")])
+//@   removed[p] = true
+//@ hook after mvdan.cc/garble.saveSharedCache() (dir, err)
+//@   if err == nil { tempMade = true }
+//@   if err == nil { tempDir = dir }
 //@ hook before os.Remove(p)
 //@   assert("removes-only-what-this-process-owns", may[p])
 //@ hook before os.MkdirAll(p, perm)
@@ -350,8 +374,10 @@ package main
 //@   requires !anySelected
 //@   spec goflags.smt2
 //@   maxpaths 4000
-//@   assigns *, ghost may, ghost marker, ghost envShared, ghost parent
+//@   assigns *, ghost may, ghost marker, ghost envShared, ghost parent, ghost tempMade, ghost tempDir, ghost removed
 //@   ensures @env-names-only-an-owned-dir: envShared == "" || may[envShared]
+//@   ensures @temp-dir-is-always-handed-to-the-cleanup: tempMade && !old(tempMade) ==> envShared == tempDir
+//@   ensures @at-most-one-temp-dir: !tempMade ==> envShared == ""
 //@ end
 
 //@ ghost linkPatched bool
@@ -374,20 +400,7 @@ package main
 //@   requires !lockHeld && !everLocked && unlocks == 0 && !built && !stamped && !linkPatched && !anySelected
 //@   ensures @lock-released-once-after-the-link: linkPatched ==> !lockHeld && unlocks == 1
 //@   ensures @no-lock-leak: !lockHeld
-//@ end
-
-//@ func commandReverse
-//@   property C19
-//@   hooks fs
-//@   maxpaths 4000
-//@   skip safety call-requires
-//@ end
-
-//@ func commandMap
-//@   property C19
-//@   hooks fs
-//@   maxpaths 4000
-//@   skip safety call-requires
+//@   ensures @temp-dir-removed-on-every-exit: [C19] tempMade && !old(tempMade) ==> removed[tempDir]
 //@ end
 
 //@ func (*transformer).writeSourceFile
@@ -561,9 +574,10 @@ package main
 //@ end
 
 //@ func commandReverse
-//@   property C04 C13
+//@   property C04 C13 C19
 //@   spec paths.smt2
-//@   hooks revstream revkey
+//@   hooks revstream revkey fs
+//@   maxpaths 4000
 //@   skip safety
 //@   requires !anySelected
 //@   unclaimed hashWithPackage/requires because the names come from go list output and from parsed declarations; that those are non-empty is an invariant of go/parser and cmd/go, not of this function
@@ -572,6 +586,7 @@ package main
 //@   case_calls *ast.TypeSpec: addHashedWithPackage
 //@   case_calls *ast.Field: ObjectOf, IsField, Origin, hashWithStruct, append, panic
 //@   case_calls *ast.ValueSpec: addHashedWithPackage
+//@   ensures @temp-dir-removed-on-every-exit: [C19] tempMade && !old(tempMade) ==> removed[tempDir]
 //@   ensures @exit-status-tells-whether-anything-was-replaced: r0 == nil && !old(rcChanged) ==> rcChanged
 //@   loop 6
 //@     invariant rcChanged == (entry(rcChanged) || anyModified)
@@ -689,6 +704,14 @@ package main
 //@   hooks fwdpos
 //@   skip safety
 //@   unclaimed hashWithPackage/requires because non-emptiness of the key is immaterial here
+//@   ghost pendingOff int = -1
+//@   ghost nOffsets int = 0
+//@   loop 2
+//@     iter if dyntypeis(node, *ast.CallExpr) { pendingOff = fsetFile.Position(node.Pos()).Offset }
+//@     iter if dyntypeis(node, *ast.Ident) { nOffsets = nOffsets + 1 }
+//@     invariant @every-identifier-gets-the-offset-of-the-call-entered-last: nextOffset == pendingOff
+//@     invariant @one-offset-per-identifier: len(origCallOffsets) == nOffsets
+//@     iter if dyntypeis(node, *ast.Ident) { pendingOff = -1 }
 //@ end
 
 // ---- C13/C01: one naming decision, used by the build and by garble map ----
@@ -750,10 +773,91 @@ package main
 //@ end
 
 //@ func commandMap
-//@   property C13
-//@   hooks mapnames parse
+//@   property C13 C19
+//@   hooks mapnames parse fs
+//@   maxpaths 4000
 //@   requires !anySelected
 //@   skip safety
 //@   unclaimed obfuscatedObjectName/requires because the transformer and its package are non-nil whenever transformerForListedPackage reports no error; the remaining precondition is about go/types
 //@   unclaimed obfuscatedImportPath/requires because import paths of listed packages are non-empty by construction of go list
+//@   ensures @temp-dir-removed-on-every-exit: [C19] tempMade && !old(tempMade) ==> removed[tempDir]
+//@ end
+
+// ---- C08: what reflection detection records, and under which name ----
+
+//@ ghost lastGot *listedPackage
+//@ ghost lastGotOK bool
+
+//@ hookset reflnames
+//@ hook after (*mvdan.cc/garble.listedPackages).get(l, path) (lp, ok)
+//@   lastGot = lp
+//@   lastGotOK = ok
+//@ end
+
+//@ func (*reflectInspector).obfuscatedObjectName
+//@   property C08
+//@   hooks reflnames
+//@   requires ri != nil
+//@   skip safety
+//@   unclaimed hashWithPackage/requires because object names from go/types are never empty and listed packages are non-nil when found
+//@   unclaimed hashWithStruct/requires because the field comes from go/types and the content ID from the shared cache
+//@   may_panic when true
+//@   assigns sumBuffer, b64NameBuffer, listedPackages.entries, ghost wr, ghost lastGot, ghost lastGotOK
+//@   ensures @universe-objects-are-never-recorded: isnil(obj.Pkg()) ==> r0 == ""
+//@   ensures @fields-are-named-as-the-build-names-them: !isnil(obj.Pkg()) && dyntypeis(obj, *types.Var) && parent != nil ==> r0 == old(hashWithStruct(parent, obj.(*types.Var)))
+//@   ensures @own-objects-use-the-package-being-compiled: !isnil(obj.Pkg()) && !(dyntypeis(obj, *types.Var) && parent != nil) && obj.Pkg() == ri.pkg ==> r0 == old(hashWithPackage(ri.lpkg, obj.Name()))
+//@   ensures @foreign-objects-use-their-declaring-package: !isnil(obj.Pkg()) && !(dyntypeis(obj, *types.Var) && parent != nil) && obj.Pkg() != ri.pkg ==> r0 == old(hashWithPackage(now(lastGot), obj.Name()))
+//@ end
+
+//@ ghost lastObf string
+
+//@ hookset reflnames
+//@ hook after (*mvdan.cc/garble.reflectInspector).obfuscatedObjectName(r, o, parent) (name)
+//@   lastObf = name
+//@ end
+
+//@ func (*reflectInspector).recordUsedForReflect
+//@   property C08
+//@   hooks reflnames
+//@   requires ri != nil
+//@   skip safety
+//@   may_panic when true
+//@   ensures @original-name-recorded-under-the-obfuscated-name: lastObf != "" ==> has(ri.result.ReflectObjectNames, lastObf) && ri.result.ReflectObjectNames[lastObf] == obj.Name()
+//@ end
+
+//@ func (*reflectInspector).recursivelyRecordUsedForReflectImpl
+//@   property C08
+//@   trusted recursion over go/types graphs with a visited set; only the coverage of its type switch is an obligation here
+//@   case_calls *types.Alias: Rhs, recursivelyRecordUsedForReflectImpl
+//@   case_calls *types.Named: !TypeArgs, Obj, Pkg, usedForReflect, recordUsedForReflect, Origin, Underlying, Len, At, recursivelyRecordUsedForReflectImpl
+//@   case_calls *types.Struct: !NumFields, !Field, Pkg, Origin, !Type, !recordUsedForReflect, !recursivelyRecordUsedForReflectImpl
+//@   case_calls *types.Map: !Key, !Elem, recursivelyRecordUsedForReflectImpl
+//@   case_calls *types.Signature: !Params, !Results, recursivelyRecordUsedForReflectImpl
+//@   case_calls *types.Tuple: !Len, !At, Type, recursivelyRecordUsedForReflectImpl
+//@ end
+
+//@ func (*reflectInspector).recordArgReflected
+//@   property C08
+//@   trusted recursion over the SSA value graph with a visited set; only the coverage of its value switch is an obligation here
+//@   case_calls *ssa.Call: !Type, !recursivelyRecordUsedForReflect
+//@   case_calls *ssa.Extract: !Type, !recursivelyRecordUsedForReflect
+//@   case_calls *ssa.TypeAssert: !Type, !recursivelyRecordUsedForReflect
+//@   case_calls *ssa.Lookup: !Type, !recursivelyRecordUsedForReflect
+//@   case_calls *ssa.Phi: !Type, !recursivelyRecordUsedForReflect
+//@   case_calls *ssa.Alloc: !Type, !recursivelyRecordUsedForReflect, Referrers, recordArgReflected, make, relatedParam
+//@   case_calls *ssa.Parameter: !Type, !recursivelyRecordUsedForReflect
+//@   case_calls *ssa.Global: !Type, !recursivelyRecordUsedForReflect
+//@ end
+
+//@ hookset postpatch
+//@ hook before mvdan.cc/garble.hashWithPackage(pkg, name)
+//@   assert("the-name-searched-for-is-the-name-the-file-was-printed-with", pkg == lpkg && lpkg.ToObfuscate)
+//@ end
+
+//@ func reflectMainPostPatch
+//@   property C08
+//@   hooks postpatch
+//@   requires lpkg != nil
+//@   skip safety
+//@   unclaimed hashWithPackage/requires because the argument is a literal
 //@ end
